@@ -1,6 +1,7 @@
 From Coq Require Import List NArith.
 From QV Require CQueues.Lfq CQueues.LfqReclaim.
+From QV Require CQueues.DqMicro.   (* extension H (DM) *)
 Require Extraction.
 Require Import ExtrOcamlBasic.
 Extraction Language OCaml.
-Extraction "../ocaml/gen/c15ext_model.ml" LfqReclaim.rinit LfqReclaim.rrun_to_sp LfqReclaim.rcontents LfqReclaim.rchain_from_head LfqReclaim.rstep.
+Extraction "../ocaml/gen/c15ext_model.ml" LfqReclaim.rinit LfqReclaim.rrun_to_sp LfqReclaim.rcontents LfqReclaim.rchain_from_head LfqReclaim.rstep DqMicro.dm_init DqMicro.hints_create DqMicro.dm_cfg_ok DqMicro.dm_step DqMicro.dm_run_to_sp DqMicro.dm_sp_target DqMicro.dm_pc_of DqMicro.getq DqMicro.dm_contents DqMicro.dm_last_consumed DqMicro.dm_last_ad_issued DqMicro.dm_last_ad_consumed DqMicro.dm_lock_holder DqMicro.dm_heap_chain DqMicro.dm_heap_elems DqMicro.dm_outs DqMicro.dm_crashed.
